@@ -48,13 +48,15 @@ def site(e):
     return name(lib)
 
 
-def fills(rng, s, nrand):
+def fills(rng, s, nrand, nsparse=0):
     """field-value fills for a spec: all-zero, all-one don't-care bits, then pseudo-random"""
     n = s.fix.size
     yield 0
     yield (1 << n) - 1
     for _ in range(nrand):
         yield rng.getrandbits(n)
+    for _ in range(nsparse):
+        yield c04.sparse_bits(rng, n)
 
 
 def worker(args):
@@ -85,7 +87,7 @@ def worker(args):
             res["finds"][key] = {"isa": name, "mode": k, "stage": stage, "bytes": b.hex(), "history": [hist[0]] if hist[0] else [],
                                  "error": (repr(exc)[:160] if isinstance(exc, BaseException) else str(extra)[:160])}
 
-    def probe(b):
+    def probe(b, light=False):
         res["n"] += 1
         # the decoder keeps whatever its earlier calls left; sometimes junk that is not an instruction is decoded first
         hist[0] = isa.junk_history(dis, (name, k))
@@ -135,6 +137,8 @@ def worker(args):
                     raise
                 except Exception as x:
                     finding("format:" + fname, x, b)
+            if light:
+                return            # word sweep: decoding, well-formedness and rendering only
             try:
                 j = pickle.loads(pickle.dumps(i))
                 c1, c2 = c04.canon(i), c04.canon(j)
@@ -191,7 +195,7 @@ def worker(args):
             # deterministic per-spec stream (independent of VERIF_SEED) + a seed-dependent share
             rng = random.Random(zlib.crc32(s.format.encode()) * 31 + 7)
             rs = random.Random(seed * 65537 + si)
-            for fi, fill in enumerate(fills(rng, s, nfill)):
+            for fi, fill in enumerate(fills(rng, s, nfill, 24 if len(specs) <= 450 else 2)):
                 head = c04.spec_bytes(rng, s, e, ml, fill=fill)
                 tail = bytes(rng.getrandbits(8) for _ in range(ml + 2)) if fi % 2 == 0 else bytes([0, 0xff] * 8)
                 probe(head + tail)
@@ -203,6 +207,8 @@ def worker(args):
                 tail = bytes(rng.getrandbits(8) for _ in range(ml))
                 for pf in ([b"\x66", b"\x67", b"\x66\x67", b"\xf3"] + ([b"\x48", b"\x41", b"\x66\x4c"] if name == "x64_x64" else [])):
                     probe(pf + head + tail)
+        for wi, b in enumerate(c04.word_sweep(name, specs, ml, seed, 2)):
+            probe(b, light=wi % 16 != 0)
         rr = random.Random(seed * 101 + k)
         for _ in range(nrandom):
             probe(bytes(rr.getrandbits(8) for _ in range(rr.randrange(0, ml + 4))))
